@@ -329,6 +329,15 @@ func parseBlock(nativeBlock *hclsyntax.Block, from, leadComments, lineComments, 
 	// before we actually append the closing brace and any straggling tokens
 	// that appear after it.
 	bodyTokens, cBrace, from := from.Partition(nativeBlock.CloseBraceRange)
+	if n := openingLineComment(bodyTokens.nativeTokens); n > 0 {
+		// A comment that shares the line with the opening brace (and, being
+		// a single-line comment, also supplies that line's line break)
+		// belongs to the block's opening, not to the first item of the
+		// body as its lead comment: otherwise removing that item would pull
+		// the next one up onto the brace's line.
+		children.AppendUnstructuredTokens(bodyTokens.Slice(0, n).Tokens())
+		bodyTokens = bodyTokens.Slice(n, bodyTokens.Len())
+	}
 	before, body, after := parseBody(nativeBlock.Body, bodyTokens)
 	children.AppendUnstructuredTokens(before.Tokens())
 	block.body = body
@@ -634,6 +643,22 @@ func partitionLineEndTokens(toks hclsyntax.Tokens) (afterComment, afterNewline i
 		}
 	}
 	return len(toks), len(toks)
+}
+
+// openingLineComment takes the tokens that follow a block's opening brace and,
+// if the brace's own line ends with a single-line comment (which includes the
+// line break), returns the index just after that comment. It returns zero in
+// all other cases.
+func openingLineComment(toks hclsyntax.Tokens) int {
+	for i, tok := range toks {
+		if tok.Type != hclsyntax.TokenComment {
+			return 0
+		}
+		if len(tok.Bytes) > 0 && tok.Bytes[len(tok.Bytes)-1] == '\n' {
+			return i + 1
+		}
+	}
+	return 0
 }
 
 // lexConfig uses the hclsyntax scanner to get a token stream and then
